@@ -591,6 +591,8 @@ fn spec_parse(kind: &str, s: &str) -> Option<Option<Vec<u8>>> {
     let (neg, digits) = match body.strip_prefix('-') { Some(d) => (true, d), None => (false, body.strip_prefix('+').unwrap_or(body)) };
     if digits.is_empty() || !digits.chars().all(|c| c.is_digit(radix)) { return None; } // not a number at all: no opinion
     let mag = u128::from_str_radix(digits, radix).ok()?;
+    // "-0" for an unsigned type: Rust's own unsigned parsers refuse a minus sign; either answer is acceptable
+    if !signed && neg && mag == 0 { return None; }
     let bits = 8 * bytes as u32;
     let fits = if signed {
         if neg { mag <= 1u128 << (bits - 1) } else { mag < 1u128 << (bits - 1) }
